@@ -111,6 +111,8 @@ pub fn parse_tail(tail: &str) -> JobId<'_> {
         "-" => JobId::PreviousJob,
         _ => match tail.strip_prefix('?') {
             Some(substring) => JobId::NameSubstring(substring),
+            // `str::parse` would accept a leading `+`, but `%+1` is not a job number.
+            None if tail.starts_with('+') => JobId::NamePrefix(tail),
             None => match tail.parse::<NonZeroUsize>() {
                 Ok(number) => JobId::JobNumber(number),
                 Err(_) => JobId::NamePrefix(tail),
